@@ -52,4 +52,21 @@ def padIds (rows : List (List Nat)) (pad : Nat) : List (List Nat) × List Nat :=
   let m := (rows.map List.length).foldl max 0
   (rows.map (fun r => r ++ List.replicate (m - r.length) pad), rows.map List.length)
 
+/-- the tensorised batch of `Batch<TrainItem>::tensorize`: id matrix, lengths, label rows (labels are shifted
+by one on the wire, so the label padding -1 is `0`), and for conditional generation the target id matrix and
+target lengths, padded with the TARGET side's pad id -/
+structure TensorM where
+  ids : List (List Nat)
+  lens : List Nat
+  labels : List (List Nat)
+  target : Option (List (List Nat) × List Nat)
+
+/-- `kind`: 0 classification (one label per item, not padded), 1 sequence classification, 2 generation,
+3 conditional generation -/
+def tensorize (kind pad tpad : Nat) (rows trows lrows : List (List Nat)) : TensorM :=
+  let (m, l) := padIds rows pad
+  { ids := m, lens := l,
+    labels := if kind == 0 then lrows.map (fun r => r.take 1) else (padIds lrows 0).1,
+    target := if kind == 3 then some (padIds trows tpad) else none }
+
 end Tu
